@@ -21,6 +21,11 @@ ck.regen()
 mods = ck.props_modules()
 if mods:
     ck.lean(mods)
+    ck.require_theorems([
+        'LbzVerif.Props.C03.xread_chunks',
+        'LbzVerif.Props.C03.xwrite_all',
+        'LbzVerif.Props.C03.output_eq_partial',
+    ])
 exe = ck.build_lbzip2(asan=False)
 rng = ck.rng
 evals = 0
